@@ -43,11 +43,25 @@ Swallow ==
   \cup {<<A("a"), "|>", <<"paren", <<<<"lam", "y", <<A("y"), op2, A("c")>>>>>>>>, "|>", A("g")>> : op2 \in NonPipeOps}
   \cup {<<<<"not", A("p")>>, op1, If3(One("q"), One("b"), <<<<"not", A("r")>>, op2, A("e")>>)>> : op1 \in {"&&", "||"}, op2 \in {"&&", "||", "="}}
 
+\* 5. applications with several arguments bind tighter than every operator; an argument that is a chain stands in parentheses
+H2(x, y) == <<"appn", "h", <<x, y>>>>
+PA(op) == <<"paren", <<A("x"), op, A("y")>>>>
+MultiApp ==
+       {<<H2(A("a"), A("b")), op, A("c")>> : op \in NonPipeOps}
+  \cup {<<A("c"), op, H2(A("a"), A("b"))>> : op \in NonPipeOps}
+  \cup {<<A("c"), op1, H2(A("a"), A("b")), op2, A("d")>> : op1 \in NonPipeOps, op2 \in NonPipeOps}
+  \cup {<<H2(PA(op1), A("b")), op2, A("c")>> : op1 \in NonPipeOps, op2 \in NonPipeOps}
+  \cup {<<H2(A("a"), PA(op1)), op2, A("c")>> : op1 \in NonPipeOps, op2 \in NonPipeOps}
+  \cup {<<<<"not", H2(A("a"), A("b"))>>, op, A("c")>> : op \in NonPipeOps}
+  \cup {<<H2(A("a"), A("b")), "|>", A("g")>>, <<H2(A("a"), <<"paren", <<A("x"), "|>", A("f")>>>>), "|>", A("g")>>}
+  \cup {<<H2(<<"app", "f", A("a")>>, A("b")), op, A("c")>> : op \in {"+", "<"}}
+
 Row(c, kind) == [toks |-> c, tree |-> Declarative(c), mtree |-> Machine(c), kind |-> kind]
 Rows ==      {Row(c, "plain") : c \in Plain}
         \cup {Row(c, "operand") : c \in WithOperands}
         \cup {Row(c, "pipe") : c \in PipeChains}
         \cup {Row(c, "swallow") : c \in Swallow}
+        \cup {Row(c, "multiapp") : c \in MultiApp}
 
 \* R1: the parser's loop computes the grouping of the published table, on every enumerated chain
 ASSUME \A r \in Rows : r.tree = r.mtree
